@@ -11,6 +11,7 @@ import (
 	"context"
 	"fmt"
 	"os"
+	"reflect"
 	"strings"
 	"testing"
 	"testing/synctest"
@@ -28,7 +29,7 @@ type csMachine struct {
 	st   *vkit.Stats
 
 	ch        *bigbuff.Channel
-	src       chan int
+	src       csSource
 	capacity  int
 	rate      time.Duration
 	parent    context.Context
@@ -58,6 +59,79 @@ type csMachine struct {
 }
 
 type csAbort struct{}
+
+// csSource is the source channel behind a Channel, of a drawn element type: the model works with tokens 1,2,3…, the
+// source carries them as int, as int boxed in interface{}, as *int-free strings, or — for chan struct{} — as
+// indistinguishable struct{}{} values (then only counts and emptiness can be told apart, which is exactly what a
+// closed source "producing" values would violate).
+type csSource struct {
+	kind string // "int" | "any" | "string" | "struct"
+	ch   reflect.Value
+}
+
+func csNewSource(kind string, capacity int) csSource {
+	var elem reflect.Type
+	switch kind {
+	case "any":
+		elem = reflect.TypeOf((*any)(nil)).Elem()
+	case "string":
+		elem = reflect.TypeOf("")
+	case "struct":
+		elem = reflect.TypeOf(struct{}{})
+	default:
+		elem = reflect.TypeOf(0)
+	}
+	return csSource{kind: kind, ch: reflect.MakeChan(reflect.ChanOf(reflect.BothDir, elem), capacity)}
+}
+
+// want is what Get / Buffer must hand out for token v
+func (s csSource) want(v int) any {
+	switch s.kind {
+	case "string":
+		return fmt.Sprintf("v%d", v)
+	case "struct":
+		return struct{}{}
+	}
+	return v
+}
+
+func (s csSource) zero() any {
+	switch s.kind {
+	case "any":
+		return nil
+	case "string":
+		return ""
+	case "struct":
+		return struct{}{}
+	}
+	return 0
+}
+
+func (s csSource) val(v int) reflect.Value {
+	rv := reflect.New(s.ch.Type().Elem()).Elem()
+	rv.Set(reflect.ValueOf(s.want(v)))
+	return rv
+}
+
+func (s csSource) send(v int) { s.ch.Send(s.val(v)) }
+func (s csSource) len() int   { return s.ch.Len() }
+func (s csSource) close()     { s.ch.Close() }
+
+// sendOrQuit blocks until the token was sent or quit is closed
+func (s csSource) sendOrQuit(v int, quit chan struct{}) bool {
+	i, _, _ := reflect.Select([]reflect.SelectCase{
+		{Dir: reflect.SelectSend, Chan: s.ch, Send: s.val(v)},
+		{Dir: reflect.SelectRecv, Chan: reflect.ValueOf(quit)},
+	})
+	return i == 0
+}
+
+func (s csSource) iface(recvOnly bool) any {
+	if recvOnly {
+		return s.ch.Convert(reflect.ChanOf(reflect.RecvDir, s.ch.Type().Elem())).Interface()
+	}
+	return s.ch.Interface()
+}
 
 func (m *csMachine) on(props ...string) bool {
 	if m.prof == "" {
@@ -157,8 +231,8 @@ func (m *csMachine) checkGetResult(op *vkit.Op, val int, wantErr bool) {
 	if res.err != nil {
 		m.fail("C13/get-error", "Get failed with %v although value %d is available (replay=%d, in source=%d)", res.err, val, m.r, m.available())
 	}
-	if res.v != any(val) {
-		if m.srcClosed && res.v == any(0) {
+	if res.v != m.src.want(val) {
+		if m.srcClosed && res.v == m.src.zero() {
 			m.fail("C13/zero-value", "Get returned the zero value from the closed source")
 		}
 		if m.r > 0 {
@@ -196,8 +270,8 @@ func (m *csMachine) check() {
 					m.fail("C13+C12/get-panic", "Get panicked: %v", op.Panic)
 				}
 				if res.err == nil {
-					if m.srcClosed && res.v == any(0) {
-						m.fail("C13/zero-value", "Get returned a zero value from the closed, drained source")
+					if m.srcClosed && res.v == m.src.zero() {
+						m.fail("C13/zero-value", "Get returned a zero value from the closed, drained source (element type %v)", m.src.ch.Type().Elem())
 					}
 					m.fail("C13/get-invented", "Get returned %v although the source has nothing to give", res.v)
 				}
@@ -225,13 +299,13 @@ func (m *csMachine) check() {
 			m.fail("C13/buffer-len", "Buffer() has %d entries, expected %d (taken %d - committed %d)", len(buf), m.k-m.c, m.k, m.c)
 		}
 		for i, v := range buf {
-			if v != any(m.fed[m.c+i]) {
+			if v != m.src.want(m.fed[m.c+i]) {
 				m.fail("C13/buffer-content", "Buffer()[%d]=%v, expected %d: committed ++ Buffer() must be the taken prefix of the source", i, v, m.fed[m.c+i])
 			}
 		}
 		// nothing lost: what is left in the source + taken == fed
 		if m.capacity > 0 {
-			if got := len(m.src); got != m.queued-m.k {
+			if got := m.src.len(); got != m.queued-m.k {
 				m.fail("C13/source-accounting", "source holds %d values, expected %d (sent %d - taken %d)", got, m.queued-m.k, m.queued, m.k)
 			}
 		}
@@ -271,7 +345,7 @@ func (m *csMachine) ruleFeed(t *rapid.T) {
 		t.Skip("enough queued behind the unbuffered source")
 	}
 	if m.capacity > 0 {
-		if free := m.capacity - len(m.src); n > free {
+		if free := m.capacity - m.src.len(); n > free {
 			n = free
 		}
 		if n <= 0 {
@@ -282,7 +356,7 @@ func (m *csMachine) ruleFeed(t *rapid.T) {
 		v := len(m.fed) + 1
 		m.fed = append(m.fed, v)
 		if m.capacity > 0 {
-			m.src <- v
+			m.src.send(v)
 		} else {
 			m.feedQ <- v
 		}
@@ -472,7 +546,7 @@ func (m *csMachine) ruleCloseSource(t *rapid.T) {
 		}
 		synctest.Wait()
 	}
-	close(m.src)
+	m.src.close()
 	if m.getOp != nil {
 		m.srcClosedGet = true
 	}
@@ -493,7 +567,8 @@ func csRun(t *rapid.T, st *vkit.Stats, prof string) {
 	}()
 	m.capacity = rapid.SampledFrom([]int{0, 0, 1, 4}).Draw(t, "cap")
 	m.rate = rapid.SampledFrom([]time.Duration{0, time.Microsecond * 50, time.Millisecond}).Draw(t, "rate")
-	m.src = make(chan int, m.capacity)
+	srcKind := rapid.SampledFrom([]string{"int", "int", "int", "any", "string", "struct"}).Draw(t, "elem")
+	m.src = csNewSource(srcKind, m.capacity)
 	m.feedQ = make(chan int, 64)
 	m.feedQuit = make(chan struct{})
 	if m.capacity == 0 {
@@ -502,9 +577,7 @@ func csRun(t *rapid.T, st *vkit.Stats, prof string) {
 			for {
 				select {
 				case v := <-q:
-					select {
-					case src <- v:
-					case <-quit:
+					if !src.sendOrQuit(v, quit) {
 						return
 					}
 				case <-quit:
@@ -513,16 +586,18 @@ func csRun(t *rapid.T, st *vkit.Stats, prof string) {
 			}
 		}()
 	}
-	parentKind := rapid.SampledFrom([]string{"nil", "cancellable", "cancellable"}).Draw(t, "parent")
+	parentKind := rapid.SampledFrom([]string{"nil", "cancellable", "cancellable", "cancellable", "precancelled"}).Draw(t, "parent")
 	m.parent, m.cancelPar = context.WithCancel(context.Background())
 	var pctx context.Context
 	if parentKind != "nil" {
 		pctx = m.parent
 	}
-	var source any = m.src
-	if rapid.Bool().Draw(t, "recvOnly") {
-		source = (<-chan int)(m.src)
+	if parentKind == "precancelled" {
+		// a Channel built on a context that is already cancelled is born closed: everything after close applies
+		m.cancelPar()
+		m.closed, m.autoClosed = true, true
 	}
+	source := m.src.iface(rapid.Bool().Draw(t, "recvOnly"))
 	ch, err := bigbuff.NewChannel(pctx, m.rate, source)
 	if err != nil {
 		m.fail("C13/newchannel", "NewChannel failed: %v", err)
@@ -531,7 +606,7 @@ func csRun(t *rapid.T, st *vkit.Stats, prof string) {
 	if m.rate == 0 {
 		m.rate = bigbuff.DefaultChannelPollRate
 	}
-	m.tr("new(cap=%d,rate=%v,parent=%s)", m.capacity, m.rate, parentKind)
+	m.tr("new(cap=%d,rate=%v,parent=%s,source=%T)", m.capacity, m.rate, parentKind, source)
 	m.settle()
 
 	w := map[string]int{"feed": 4, "get": 8, "cancelGet": 1, "advance": 3, "commit": 3, "rollback": 4, "close": 1, "cancelParent": 1, "closeSource": 1}
@@ -551,7 +626,7 @@ func csRun(t *rapid.T, st *vkit.Stats, prof string) {
 	add("commit", m.ruleCommit)
 	add("rollback", m.ruleRollback)
 	add("close", m.ruleClose)
-	if parentKind != "nil" {
+	if parentKind == "cancellable" {
 		add("cancelParent", m.ruleCancelParent)
 	}
 	add("closeSource", m.ruleCloseSource)
@@ -566,7 +641,7 @@ func csRun(t *rapid.T, st *vkit.Stats, prof string) {
 	time.Sleep(2*m.rate + time.Nanosecond)
 	m.settle()
 	if !m.closed {
-		if parentKind != "nil" && rapid.Bool().Draw(t, "endByCancel") {
+		if parentKind == "cancellable" && rapid.Bool().Draw(t, "endByCancel") {
 			m.cancelPar()
 			m.autoClosed = true
 		} else if err := m.ch.Close(); err != nil {
@@ -618,7 +693,7 @@ func csRun(t *rapid.T, st *vkit.Stats, prof string) {
 	default:
 		nt = m.stage == 4 || m.closeWithGet
 	}
-	cls := []string{fmt.Sprintf("cap:%d", m.capacity), "rate:" + m.rate.String(), fmt.Sprintf("stage:%d", m.stage)}
+	cls := []string{fmt.Sprintf("cap:%d", m.capacity), "rate:" + m.rate.String(), fmt.Sprintf("stage:%d", m.stage), "elem:" + srcKind, "parent:" + parentKind}
 	if m.closeWithGet {
 		cls = append(cls, "close-with-get-pending")
 	}
